@@ -257,7 +257,11 @@ def _limit_pos(
   sensorid = sensor_limitpos_adr[limitposid]
   if efc_id_in[worldid, efcid] == sensor_objid[sensorid]:
     efc_type = efc_type_in[worldid, efcid]
-    if efc_type == ConstraintType.LIMIT_JOINT or efc_type == ConstraintType.LIMIT_TENDON:
+    # joint ids and tendon ids overlap: the row must be of the kind the sensor asks for
+    stype = sensor_type[sensorid]
+    if (efc_type == ConstraintType.LIMIT_JOINT and stype == SensorType.JOINTLIMITPOS) or (
+      efc_type == ConstraintType.LIMIT_TENDON and stype == SensorType.TENDONLIMITPOS
+    ):
       val = efc_pos_in[worldid, efcid] - efc_margin_in[worldid, efcid]
       _write_scalar(sensor_type, sensor_datatype, sensor_adr, sensor_cutoff, sensorid, val, sensordata_out[worldid])
 
@@ -1056,7 +1060,11 @@ def _limit_vel(
   sensorid = sensor_limitvel_adr[limitvelid]
   if efc_id_in[worldid, efcid] == sensor_objid[sensorid]:
     efc_type = efc_type_in[worldid, efcid]
-    if efc_type == ConstraintType.LIMIT_JOINT or efc_type == ConstraintType.LIMIT_TENDON:
+    # joint ids and tendon ids overlap: the row must be of the kind the sensor asks for
+    stype = sensor_type[sensorid]
+    if (efc_type == ConstraintType.LIMIT_JOINT and stype == SensorType.JOINTLIMITVEL) or (
+      efc_type == ConstraintType.LIMIT_TENDON and stype == SensorType.TENDONLIMITVEL
+    ):
       _write_scalar(
         sensor_type, sensor_datatype, sensor_adr, sensor_cutoff, sensorid, efc_vel_in[worldid, efcid], sensordata_out[worldid]
       )
@@ -1668,7 +1676,11 @@ def _limit_frc(
   sensorid = sensor_limitfrc_adr[limitfrcid]
   if efc_id_in[worldid, efcid] == sensor_objid[sensorid]:
     efc_type = efc_type_in[worldid, efcid]
-    if efc_type == ConstraintType.LIMIT_JOINT or efc_type == ConstraintType.LIMIT_TENDON:
+    # joint ids and tendon ids overlap: the row must be of the kind the sensor asks for
+    stype = sensor_type[sensorid]
+    if (efc_type == ConstraintType.LIMIT_JOINT and stype == SensorType.JOINTLIMITFRC) or (
+      efc_type == ConstraintType.LIMIT_TENDON and stype == SensorType.TENDONLIMITFRC
+    ):
       _write_scalar(
         sensor_type, sensor_datatype, sensor_adr, sensor_cutoff, sensorid, efc_force_in[worldid, efcid], sensordata_out[worldid]
       )
